@@ -97,7 +97,7 @@ UNITS = {
     "server": {
         "uses": [],
         "preludes": ["shims/core.rs", "shims/bytes.rs", "shims/env.rs", "shims/io.rs", "shims/cursor.rs"],
-        "specs": ["contracts/spec/hv.rs", "contracts/spec/crlf.rs", "contracts/spec/request.rs", "contracts/spec/lines.rs", "contracts/spec/request_read.rs", "contracts/spec/http.rs", "contracts/spec/lookup.rs", "contracts/spec/cors.rs", "contracts/spec/headers.rs", "contracts/spec/frames.rs", "contracts/spec/app.rs", "contracts/spec/server.rs", "contracts/spec/names_status.rs"],
+        "specs": ["contracts/spec/hv.rs", "contracts/spec/crlf.rs", "contracts/spec/request.rs", "contracts/spec/lines.rs", "contracts/spec/request_read.rs", "contracts/spec/http.rs", "contracts/spec/lookup.rs", "contracts/spec/cors.rs", "contracts/spec/headers.rs", "contracts/spec/frames.rs", "contracts/spec/app.rs", "contracts/spec/server.rs", "contracts/spec/names_status.rs", "contracts/spec/c10_thm.rs"],
         "sources": [
             SYMBOL_SRC,
             ("src/http/mod.rs", ["struct:Version", "const:VERSION"]),
@@ -430,6 +430,8 @@ def owner(unit, f):
         return ("C20", "C04") if f.kind in SAFETY_KINDS else "C16"
     if f.kind == "precondition" and f.snippet.startswith("false@"):
         return "C13"
+    if "count_name" in f.snippet or "c10_names" in f.snippet or "not_a_grant_name" in f.snippet:
+        return "C10"
     if unit == "defaults":
         return "C11"
     if unit == "request_parse":
@@ -638,6 +640,7 @@ PROPS = {
         "samples": [
             "Header::get_header_list / postcondition / exists now: hvs(res@) == cors_headers_expected(*request) + fixed_headers(now)",
             "Server::bad_request_response / postcondition / is_bad_request(res@, message@)  (the 400 answer serialises exactly fixed_headers)",
+            "theorem_c10_exactly_once / for every header list of the proved shape std_headers and each of X-Content-Type-Options, X-Frame-Options, Cache-Control, Accept-Ranges, Accept-CH, Critical-CH, Vary: count_name(hs, name) == 1",
         ],
         "assumptions": [],
     },
